@@ -291,6 +291,8 @@ class Ctx:
     def write_replay(self, name, obj):
         os.makedirs(REPLAYS, exist_ok=True)
         p = os.path.join(REPLAYS, "%s-%s.json" % (self.prop, name))
+        obj = dict(obj, seed=self.seed, tier=self.tier,
+                   rerun="VERIF_SEED=%d ./check %s --tier %s   (or: ./check %s --replay %s)" % (self.seed, self.prop, self.tier, self.prop, p))
         with open(p, "w") as f:
             json.dump(obj, f, indent=1, sort_keys=True, default=str)
         return p
